@@ -77,6 +77,13 @@ pub struct TableProvider {
     /// `version_sets_in_union` returns an iterator without an upper size bound (as a
     /// flat_map / from_fn based implementation would)
     pub union_iter_unbounded: Cell<bool>,
+    /// `version_sets_in_union` reports a lower size bound of 1 whatever follows (as
+    /// `once(first).chain(rest.filter(..))` does)
+    pub union_iter_lower_one: Cell<bool>,
+    /// `sort_candidates` is a stable sort on a key that ties pairs of candidates: the result then
+    /// depends on the order of the slice it is given (deterministic, but not a total order of
+    /// its own)
+    pub sort_ties: Cell<bool>,
     /// once cancellation has been signalled the provider completes no request any more
     pub freeze_on_cancel: Cell<bool>,
     /// SortProbe::DepsAbandon: one nested request has been abandoned already
@@ -103,6 +110,8 @@ impl TableProvider {
             log_all: Cell::new(false),
             filter_reversed: Cell::new(false),
             union_iter_unbounded: Cell::new(false),
+            union_iter_lower_one: Cell::new(false),
+            sort_ties: Cell::new(false),
             freeze_on_cancel: Cell::new(false),
             abandoned_once: Cell::new(false),
         }
@@ -259,6 +268,7 @@ impl Interner for TableProvider {
             .get(&version_set_union.0)
             .unwrap_or_else(|| panic!("HARNESS: unknown union id {}", version_set_union.0));
         let unbounded = self.union_iter_unbounded.get();
+        let lower_one = self.union_iter_lower_one.get();
         UnionIter {
             inner: self.u.unions[i]
                 .members
@@ -267,6 +277,7 @@ impl Interner for TableProvider {
                 .collect::<Vec<_>>()
                 .into_iter(),
             unbounded,
+            lower_one,
         }
     }
 }
@@ -276,6 +287,7 @@ impl Interner for TableProvider {
 pub struct UnionIter {
     inner: std::vec::IntoIter<VersionSetId>,
     unbounded: bool,
+    lower_one: bool,
 }
 
 impl Iterator for UnionIter {
@@ -286,6 +298,9 @@ impl Iterator for UnionIter {
     fn size_hint(&self) -> (usize, Option<usize>) {
         if self.unbounded {
             (0, None)
+        } else if self.lower_one {
+            let n = self.inner.len();
+            (n.min(1), Some(n))
         } else {
             self.inner.size_hint()
         }
@@ -415,7 +430,11 @@ impl DependencyProvider for TableProvider {
                 usize::MAX
             }
         };
-        solvables.sort_by_cached_key(|&s| rank_of(s));
+        if self.sort_ties.get() {
+            solvables.sort_by_cached_key(|&s| rank_of(s) / 2);
+        } else {
+            solvables.sort_by_cached_key(|&s| rank_of(s));
+        }
     }
 
     async fn get_dependencies(&self, solvable: SolvableId) -> Dependencies {
